@@ -98,8 +98,8 @@ add("C02", "exploration",
     "DESIGN.md 4/C02")
 add("C03", "exploration",
     "property-based differential testing (proptest) against harness-side reference formulas transcribed from the literature (Fehlberg 4(5), Bogacki-Shampine 3(2), classical RK4, AB/AM 2 and 4, BDF 2/6): every yielded point re-derived from the preceding yielded points, policy-independently; fixed-step accept/reject direction",
-    "On generic non-linear non-autonomous right-hand sides every point of every generated path must be one step of the advertised scheme from the previous point(s) to rounding level (Runge-Kutta, Euler, RK4 start-up, Adams with PEC/PECE history search) or satisfy the BDF formula at the new time within 4 tol, with the method's own error estimate within tolerance; on fixed-step configurations steps with estimates <= tol/100 must be taken and first steps with estimates > 2 tol must not.",
-    "Exploration only. BDF points are judged by the residual of the implicit formula (<= 4 tol), so a different but equally accurate implicit solve is indistinguishable.",
+    "On generic non-linear non-autonomous right-hand sides (and, for the BDF solvers, quasi-steady relaxations strongly curved in the state) every point of every generated path must be one step of the advertised scheme from the previous point(s) to rounding level (Runge-Kutta, Euler, RK4 start-up, Adams with PEC/PECE history search) or satisfy the BDF formula at the new time within tol, with the method's own error estimate within tolerance (a BDF point with a larger residual at which the harness's transliteration of the library's quasi-Newton iteration also stops is the recorded finding K6); on fixed-step configurations steps with estimates <= tol/100 must be taken and first steps with estimates > 2 tol must not.",
+    "Exploration only. BDF points are judged by the residual of the implicit formula (<= tol), so a different but equally accurate implicit solve is indistinguishable.",
     "DESIGN.md 4/C03")
 add("C04", "exploration",
     "property-based testing (proptest): tolerance ladders and Euler step ladders against closed-form solutions (two-sided order check), metamorphic pairs complex (dimension 1-2, incl. components in quadrature and estimator-limited steps) vs equivalent real system and static vs dynamic dimension",
